@@ -276,7 +276,7 @@ TraceInit ==
   \* the model's own variables are not used by the trace specification (only its operators): pin them
   /\ crit = [t \in Tasks |-> FALSE] /\ layout = "own" /\ hook = "none" /\ envSt = "CONFIGURED" /\ lock = "none" /\ tx = TxIdle
   /\ apiLeft = 0 /\ tstate = [t \in Tasks |-> "CONFIGURED"] /\ tstatus = [t \in Tasks |-> "ACTIVE"]
-  /\ alive = [t \in Tasks |-> TRUE] /\ sick = {} /\ reach = [t \in Tasks |-> {}] /\ root = "CONFIGURED" /\ chains = {}
+  /\ alive = [t \in Tasks |-> TRUE] /\ sick = {} /\ late = {} /\ inp = [stale |-> 0, mup |-> 0] /\ reach = [t \in Tasks |-> {}] /\ root = "CONFIGURED" /\ chains = {}
   /\ msgs = {} /\ stq = {} /\ wpc = "select" /\ wval = "CONFIGURED" /\ nbuf = "none" /\ ies = {} /\ runEnd = "norun"
   /\ budget = 0 /\ critHit = FALSE /\ critTouched = FALSE /\ excused = {}
   /\ l = 1 /\ scn = -1 /\ case = NoCase /\ phase = "ended" /\ nviol = 0
